@@ -32,6 +32,7 @@ type seqCfg struct {
 	splitCap   int64
 	idxInt     int64
 	bodyInC    int64
+	bodyMax    int64
 	home       string
 }
 
@@ -98,7 +99,7 @@ func (s *seqStore) applyConf() {
 	store.Conf.MergeInterval = 100000
 	store.Conf.FlushInterval = 100000 // no time-driven flush
 	store.Conf.FlushWake = 1 << 40
-	config.MCConf.BodyMax = 1 << 20
+	config.MCConf.BodyMax = c.bodyMax
 	config.MCConf.BodyInC = c.bodyInC
 	config.MCConf.MaxKeyLen = 250
 	store.VerifSetSecsBeforeDump(-1)
@@ -373,6 +374,21 @@ func (s *seqStore) doIncr(c *Ctx, key string, delta int) {
 	c.line("incr %s %d size=%d ts=%d => %d pos=%s", hx([]byte(key)), delta, size, s.observedTS(key, size), v, pos)
 }
 
+// isLastSplit: p is the highest-numbered *.idx.s of its data file among idx
+func isLastSplit(p string, idx []string) bool {
+	if !strings.HasSuffix(p, ".idx.s") {
+		return false
+	}
+	base := filepath.Base(p)
+	for _, q := range idx {
+		b := filepath.Base(q)
+		if strings.HasSuffix(q, ".idx.s") && filepath.Dir(q) == filepath.Dir(p) && b[:3] == base[:3] && b > base {
+			return false
+		}
+	}
+	return true
+}
+
 // observedTS: delete and incr stamp their record with the server clock; the model needs the value
 // (first-record timestamps decide GC eligibility), so it is read back through ??key.
 func (s *seqStore) observedTS(key string, size uint32) uint32 {
@@ -480,6 +496,10 @@ func (s *seqStore) restart(c *Ctx, r *RNG, mode int) bool {
 				drop = strings.HasSuffix(p, ".hash")
 			case 4: // drop only hint files
 				drop = !strings.HasSuffix(p, ".hash")
+			case 5: // drop the tree dump and, per data file, the LAST hint split only
+				drop = strings.HasSuffix(p, ".hash") || isLastSplit(p, idx)
+			case 6: // drop the tree dump and, per data file, the FIRST hint split only
+				drop = strings.HasSuffix(p, ".hash") || strings.HasSuffix(p, ".000.idx.s")
 			}
 			if drop {
 				os.Remove(p)
@@ -548,6 +568,7 @@ func genSeqCfg(r *RNG, home string) seqCfg {
 	c.splitCap = []int64{2, 4, 64, 1 << 20}[r.Intn(4)]
 	c.idxInt = []int64{300, 1024, 4096}[r.Intn(3)]
 	c.bodyInC = []int64{64, 4096}[r.Intn(2)]
+	c.bodyMax = 1 << 20
 	return c
 }
 
@@ -560,8 +581,8 @@ func cfgLine(c seqCfg) string {
 	if c.checkVHash {
 		cv = 1
 	}
-	return fmt.Sprintf("nb=%d served=%s height=%d checkvhash=%d dfmax=%d splitcap=%d idxint=%d bodyinc=%d",
-		c.nb, strings.Join(sv, ","), c.height, cv, c.dfmax, c.splitCap, c.idxInt, c.bodyInC)
+	return fmt.Sprintf("nb=%d served=%s height=%d checkvhash=%d dfmax=%d splitcap=%d idxint=%d bodyinc=%d bodymax=%d",
+		c.nb, strings.Join(sv, ","), c.height, cv, c.dfmax, c.splitCap, c.idxInt, c.bodyInC, c.bodyMax)
 }
 
 func engineSeq(c *Ctx) {
@@ -582,6 +603,15 @@ func engineSeq(c *Ctx) {
 		os.RemoveAll(home)
 		os.MkdirAll(home, 0o755)
 		cfg := genSeqCfg(r, home)
+		if c.mix == "full" && r.Chance(65) {
+			// GC-oriented layout: a data file is "not full" for GC's destination test when it is smaller than
+			// DataFileMax - BodyMax, so use a small body limit (as the store's own GC tests do) and files of 6-16 blocks
+			cfg.bodyMax = []int64{256, 512}[r.Intn(2)]
+			cfg.dfmax = []int64{256 * 6, 256 * 8, 256 * 16}[r.Intn(3)]
+			if len(cfg.served) > 2 {
+				cfg.served = cfg.served[:2]
+			}
+		}
 		seqCase(c, r, fmt.Sprintf("%d-%d", c.seed, ci), cfg)
 		os.RemoveAll(home)
 	}
@@ -654,11 +684,14 @@ func seqCase(c *Ctx, r *RNG, id string, cfg seqCfg) {
 			if lim := int(cfg.dfmax)/2 - 280 - len(k); lim < maxLen {
 				maxLen = lim
 			}
+			if int64(maxLen) > cfg.bodyMax-8 {
+				maxLen = int(cfg.bodyMax - 8)
+			}
 			if maxLen < 0 {
 				maxLen = 0
 			}
 			cls, v := genValue(r, len(k), maxLen)
-			if r.Chance(3) && cfg.dfmax > 1<<20 {
+			if r.Chance(3) && cfg.dfmax > 1<<20 && cfg.bodyMax >= 1<<20 {
 				cls, v = genValue(r, len(k), 120000)
 			}
 			flag := []uint32{0, 1, 0x10, 0x204, uint32(r.Next()) & 0xFFFEFFFF}[r.Intn(5)]
@@ -666,7 +699,13 @@ func seqCase(c *Ctx, r *RNG, id string, cfg seqCfg) {
 			if r.Chance(30) {
 				rev = []int{1, 2, 3, 5, 10, 1000, 1000000}[r.Intn(7)]
 			}
-			s.doSet(c, k, v, flag, rev, ts)
+			tsv := ts
+			if r.Chance(4) {
+				// clock skew: a record stamped in the future (the age test of GC must not wrap)
+				tsv = uint32(time.Now().Unix()) + uint32(3600*(1+r.Intn(48)))
+				c.count("op.set.future-ts")
+			}
+			s.doSet(c, k, v, flag, rev, tsv)
 			c.count("op.set")
 			c.count("value." + cls)
 			if rev != 0 {
@@ -697,10 +736,13 @@ func seqCase(c *Ctx, r *RNG, id string, cfg seqCfg) {
 			s.flushAll()
 			c.line("flush")
 			c.count("op.flush")
-		case p < 95:
+		case p < 91:
 			s.doGet(c, k)
 			c.count("op.get")
-		case p < 97 && c.mix != "full":
+		case p < 93 && c.mix != "full":
+			s.doMeta(c, k)
+			c.count("op.meta")
+		case p < 93:
 			s.doMeta(c, k)
 			c.count("op.meta")
 		case p < 97:
@@ -715,14 +757,34 @@ func seqCase(c *Ctx, r *RNG, id string, cfg seqCfg) {
 				begin = 0
 			}
 			days := []int{-1, 0, 0, 0, 1, 30, 5000}[r.Intn(7)]
+			if r.Chance(25) {
+				// a tree rebuilt from hints right before the pass: tombstones are unknown to the tree
+				if !s.restart(c, r, 1) {
+					c.line("end")
+					return
+				}
+				c.count("op.restart")
+			}
 			s.doGC(c, bkt, begin, end, days, r.Chance(40), r.Chance(10))
 			c.count("op.gc")
+			if theHub.fatal == "" && r.Chance(45) {
+				// a second pass in the same process, continuing where the first one stopped (or over the same range)
+				b2, e2 := -1, -1
+				if r.Chance(30) {
+					b2, e2 = begin, end
+				}
+				s.doGC(c, bkt, b2, e2, 0, r.Chance(40), false)
+				c.count("op.gc.second")
+			}
 		case c.mix == "client":
 			s.flushAll()
 			c.line("flush")
 			c.count("op.flush")
+		case c.mix == "full" && p < 99:
+			s.doGet(c, k)
+			c.count("op.get")
 		default:
-			if !s.restart(c, r, r.Intn(5)) {
+			if !s.restart(c, r, r.Intn(7)) {
 				c.line("end")
 				return
 			}
@@ -735,6 +797,13 @@ func seqCase(c *Ctx, r *RNG, id string, cfg seqCfg) {
 		c.line("fatal => %s", strings.ReplaceAll(f, "\n", " "))
 		c.line("end")
 		return
+	}
+	if c.mix != "client" {
+		// end every history with a restart that rebuilds all indexes from the data files: nothing older may resurface
+		if !s.restart(c, r, 1) {
+			c.line("end")
+			return
+		}
 	}
 	for _, k := range keys {
 		s.doGet(c, k)
@@ -798,7 +867,12 @@ func seqReplay(c *Ctx, base string) {
 					cfg.idxInt = v
 				case "bodyinc":
 					cfg.bodyInC = v
+				case "bodymax":
+					cfg.bodyMax = v
 				}
+			}
+			if cfg.bodyMax == 0 {
+				cfg.bodyMax = 1 << 20
 			}
 			s = &seqStore{cfg: cfg}
 			curStore = s
